@@ -135,7 +135,7 @@ func vStructEq(a, b *VMValue, depth int) bool {
 	return ValueEqual(a, b, false)
 }
 
-//vh:prop=C09 tiers=quick,thorough sigkeys=v_kind unwind=8 unwind_ok=1 budget_s=1500 quick:P.depth=2 thorough:P.depth=2 bounds="every value tree of depth <= 2, containers of 0..2 elements, built from integers (64-bit symbols), finite floats (6 representatives incl. the smallest subnormal and 1e300), strings with quotes, backslashes, control characters, multi-byte runes and JSON-looking text, null, arrays, dicts, computed values with and without attributes, functions and native functions: ToJSON then VMValueFromJSON gives no error and a structurally equal value with equal repr; variable maps likewise (Attrs.ToJSON / UnmarshalJSON)"
+//vh:prop=C09 tiers=quick,thorough sigkeys=v_kind unwind=8 unwind_ok=1 budget_s=2400 quick:P.depth=1 thorough:P.depth=2 bounds="every value tree of depth <= 1 (quick) / 2 (thorough), containers of 0..2 elements, built from integers (64-bit symbols), finite floats (6 representatives incl. the smallest subnormal and 1e300), strings with quotes, backslashes, control characters, multi-byte runes and JSON-looking text, null, arrays, dicts, computed values with and without attributes, functions and native functions: ToJSON then VMValueFromJSON gives no error and a structurally equal value with equal repr; variable maps likewise (Attrs.ToJSON / UnmarshalJSON)"
 func VH_C09_roundtrip() {
 	v := vC09Value("v", vParam("depth", 1))
 	shared := vChoice("shared", 2) == 1
